@@ -287,7 +287,10 @@ class Matcher(object):
         elif self.supports("positions"):
             return [Span(pos) for pos in self.value_as("positions")]
         else:
-            raise Exception("Field does not support spans")
+            # e.g. a sequence/span query over a sub-query that has no
+            # positions: an error in the query, not in the program
+            from whoosh.query.qcore import QueryError
+            raise QueryError("Field does not support spans")
 
     def skip_to(self, id):
         """Moves this matcher to the first posting with an ID equal to or
@@ -606,8 +609,9 @@ class LeafMatcher(Matcher):
         elif self.supports("positions"):
             return [Span(pos) for pos in self.value_as("positions")]
         else:
-            raise Exception("Field does not support positions (%r)"
-                            % self.term())
+            from whoosh.query.qcore import QueryError
+            raise QueryError("Field does not support positions (%r)"
+                             % (self.term(),))
 
     def supports_block_quality(self):
         return self.scorer and self.scorer.supports_block_quality()
